@@ -127,7 +127,8 @@ def _writeSetFLPairPots(nr, dr, eampots, pairpots, out, scale_r = True):
         r = float(k) * dr
         val = pp.energy(r)
         if scale_r:
-          val *= r
+          # not 'val *= r': the value may be a numpy array that belongs to the pair function
+          val = val * r
         print(u"% 20.16e" % val, file=workout)
   out.write(workout.getvalue())
 
